@@ -559,7 +559,7 @@ class Interp:
                 self.assign(t_, x, env)
         elif isinstance(tg, ast.Attribute):
             obj = self.eval(tg.value, env)
-            self.setattr(obj, tg.attr, v, tg)
+            self.setattr(obj, self.mangle(tg.attr, env), v, tg)
         elif isinstance(tg, ast.Subscript):
             obj = self.eval(tg.value, env)
             idx = self.eval_index(tg.slice, env)
@@ -798,9 +798,15 @@ class Interp:
         from . import lib
         return lib.compare(self, op, a, b, node)
 
+    def mangle(self, name, env):
+        if name.startswith("__") and not name.endswith("__") and env.has("__class__"):
+            cls = env.lookup("__class__")
+            return f"_{cls.name.lstrip('_')}{name}"
+        return name
+
     def ev_Attribute(self, node, env):
         obj = self.eval(node.value, env)
-        return self.getattr(obj, node.attr, node)
+        return self.getattr(obj, self.mangle(node.attr, env), node)
 
     def ev_Subscript(self, node, env):
         obj = self.eval(node.value, env)
